@@ -38,6 +38,8 @@ def context(draw, hostile=True):
                "7": draw(tv), "2024": {"k_a": draw(tv)}},  # mapping keys that look like numbers
         "f1": {"__call__": draw(tv)}, "fl": {"__call__": draw(st.lists(tv, min_size=0, max_size=3))},
         "fd": {"__call__": {"k_a": draw(tv)}},
+        "textual": draw(tv), "texts": draw(st.lists(tv, min_size=1, max_size=2)), "structure_note": draw(tv), "structured": {"k_a": draw(tv)},
+        "textile": draw(tv), "nocallx": draw(tv), "notx": draw(tv), "existsx": draw(tv),
     }
 
 
@@ -46,7 +48,9 @@ BASE_PATHS = ["s1", "s2", "n1", "zero", "es", "none1", "empty", "lst", "lst2", "
               "s1/nope", "d1/7", "d1/2024/k_a", "d1/3", "lst/-1", "lst2/-1", "d1/k_l/-1", "lst2/-9",
               # names that tal:define statements elsewhere in the template may (or may not) have defined: out of their scope they
               # are missing, and a global define is seen from there on
-              "v00", "v01", "v10", "v11", "v20", "v21", "v30", "gv1", "globalnav", "locale", "localx"]
+              "v00", "v01", "v10", "v11", "v20", "v21", "v30", "gv1", "globalnav", "locale", "localx",
+              # names that BEGIN with a keyword of the content / replace / define syntax (they are ordinary names)
+              "textual", "texts/0", "structure_note", "structured/k_a", "textile", "nocallx", "notx", "existsx"]
 SEQ_PATHS = ["lst", "lst", "lst2", "empty", "fl", "d1/k_l", "none1", "missing", "nothing", "default", "n1"]
 REPEAT_PROPS = ["index", "number", "even", "odd", "start", "end", "length", "letter", "Letter", "roman", "Roman"]
 
